@@ -572,11 +572,18 @@ func (e *Env) index(n *ast.IndexExpr) *Value {
 			}
 			if mt, ok := b.T.Underlying().(*types.Map); ok {
 				kt, _ := x.mapKeyTerm(e.st, i)
-				_, vk := mapKeys(mt)
+				dk, vk := mapKeys(mt)
 				return e.withView(func(v *State) *Value {
+					// Go semantics: the zero value for an absent key
+					d := x.heapArr(v, dk, "Bool")
+					present := fmt.Sprintf("(select (select %s %s) %s)", d, b.Term, kt)
 					return mkValue(mt.Elem(), func(l Leaf) string {
 						a := x.heapArr(v, vk+"|"+l.Path, l.Sort)
-						return fmt.Sprintf("(select (select %s %s) %s)", a, b.Term, kt)
+						z := "0"
+						if l.Sort == "Bool" {
+							z = "false"
+						}
+						return fmt.Sprintf("(ite %s (select (select %s %s) %s) %s)", present, a, b.Term, kt, z)
 					})
 				})
 			}
@@ -1045,6 +1052,14 @@ func (e *Env) call(n *ast.CallExpr) *Value {
 	if t := e.tryTypeExpr(n.Fun); t != nil && len(n.Args) == 1 {
 		v := e.eval(n.Args[0])
 		if v.K == KLeaf {
+			// integer conversions have Go's semantics (two's complement truncation), as in the executed code
+			if v.T != nil {
+				fb, fok := v.T.Underlying().(*types.Basic)
+				tb, tok := t.Underlying().(*types.Basic)
+				if fok && tok && fb.Info()&types.IsInteger != 0 && tb.Info()&types.IsInteger != 0 && fb.Info()&types.IsUntyped == 0 && !isAbstractBytes(v.T) {
+					return leaf(t, wrapConv(v.Term, fb, tb))
+				}
+			}
 			return leaf(t, v.Term)
 		}
 		return retag(v, t)
